@@ -130,6 +130,7 @@ class C01(vlib.Driver):
     def run_impl(self, case):
         import torch
         torch.set_num_threads(1)
+        evo.reset_globals()
         spec = {k: case[k] for k in ("algo", "family", "share", "netcfg", "seed")}
         # a population is built from ONE user net_config / hp_config, as EvolvableAlgorithm.population does
         shared_cfg = evo.net_config_for(case["netcfg"], case["family"])
